@@ -918,3 +918,31 @@ Qed.
 Lemma desc_files_fuel : forall fuel d name sub, (length name < fuel)%nat ->
   desc_candidates fuel d name sub = desc_files d name sub.
 Proof. intros. unfold desc_files. apply desc_candidates_fuel; lia. Qed.
+
+(* ------------------------------------------------------------------ *)
+(* GetPermission: whichever way the username enters, an accepted join has a
+   username that obeys the rule, and it is the token's or the client's *)
+Lemma get_permission_username_valid :
+  forall tok_present parse_ok needs check cuser user_exists password_ok u,
+  get_permission_username tok_present parse_ok needs check cuser user_exists password_ok = Some u ->
+  valid_username u = true /\
+  (u = [] \/ valid_group_name u = true) /\
+  (check = Some u \/ cuser = Some u).
+Proof.
+  intros tp po nd check cuser ue pw u H. unfold get_permission_username in H.
+  match type of H with (match ?r with _ => _ end) = _ => destruct r as [w|] eqn:Er end;
+    [|discriminate].
+  destruct (valid_username w) eqn:Ev; [|discriminate]. inversion H; subst w. clear H.
+  split; [exact Ev|]. split; [apply valid_username_iff; exact Ev|].
+  destruct tp.
+  - destruct (negb po); [discriminate|].
+    destruct ((match cuser with None => true | Some _ => false end) && nd); [discriminate|].
+    destruct check as [tu|]; [|discriminate].
+    destruct tu as [|t0 tu'].
+    + destruct cuser as [cu|].
+      * destruct ue; [discriminate|]. inversion Er. right. reflexivity.
+      * inversion Er. left. reflexivity.
+    + inversion Er. left. reflexivity.
+  - destruct cuser as [cu|]; [|discriminate]. destruct pw; [|discriminate].
+    inversion Er. right. reflexivity.
+Qed.
